@@ -282,7 +282,33 @@ def run(ctx):
                    'changes made to it are never written' % (fn.qual, norm(c)), node=c, expected='converter.dbval2val(dbval, obj)')
     ctx.floor('C28-OWNERARG', nown, 2, 'dbval2val call sites in core.py')
     bits_rule(ctx)
-
+    # ---------------------------------------------------------------- LOADWRAP
+    # a Json / array value loaded from the database for an object (obj given) is handed out wrapped, whatever it contains: an empty {} or []
+    # loaded untracked can be filled in place without the session noticing.  Scenario: obj is not None, the stored value is a container
+    # (not a scalar, not NULL) -- every return passes TrackedValue.make(...) / TrackedArray(...).
+    from ..typestate import scenario_edges
+    nlw = 0
+    for cls in repo.subclasses(repo.cls('pony.orm.dbapiprovider', 'Converter')):
+        f = cls.methods.get('dbval2val')
+        if f is None or cls.name not in ('JsonConverter', 'ArrayConverter') and not any(k.name in ('JsonConverter', 'ArrayConverter') for k in repo.mro(cls)): continue
+        g = cg.cfg(f); dbv, ob_ = f.params[1], f.params[2]
+        decoded = any(dotted(c.func) in ('json.loads', 'loads') and c.args and dotted(c.args[0]) == dbv for c in calls_in(f.node))
+        def lw_atom(text, node, dbv=dbv, ob_=ob_, decoded=decoded):
+            if text == ob_ + ' is None': return False
+            if text == ob_ + ' is not None': return True
+            if text == dbv + ' is None': return False
+            if text == dbv + ' is not None': return True
+            if text == dbv and decoded: return True      # the stored form is JSON text (decoded below) and present; what it decodes to is left open
+            if isinstance(node, ast.Call) and dotted(node.func) == 'isinstance' and dotted(node.args[0]) == dbv: return False      # not a scalar
+            return None
+        eo = scenario_edges(g, f.node, lw_atom, resolve=False)
+        wraps = [x for x in g.nodes if x.kind == 'stmt' and x.ast is not None and any(dotted(c.func) in ('TrackedValue.make', 'TrackedArray', 'TrackedDict', 'TrackedList') for c in x.calls())]
+        nlw += 1
+        ok = bool(wraps) and g.must_pass_after(g.entry, wraps, exits=[g.exit], edge_ok=eo)
+        ctx.ob('C28-LOADWRAP.loaded-container-is-tracked-whatever-it-holds', f, wraps[0].ast if wraps else f.node, ok,
+               '' if ok else '%s.dbval2val can return a container loaded for an object without wrapping it (e.g. when it is empty): in-place changes of that value never '
+               'reach _attr_changed_ and are not written' % cls.name)
+    ctx.floor('C28-LOADWRAP', nlw, 2, 'dbval2val functions of Json/array converters')
 
 
 def def_reaches_changed(ctx, cls, f, muts):
@@ -313,6 +339,7 @@ def def_reaches_changed(ctx, cls, f, muts):
 
 
 MUTANTS = [
+    dict(id='C28-lw', file='pony/orm/dbapiprovider.py', fn='ArrayConverter.dbval2val', old="        if obj is None or dbval is None:\n            return dbval", new="        if obj is None or not dbval:\n            return dbval", expect='C28-LOADWRAP'),
     dict(id='C28-oa1', file='pony/orm/core.py', fn='Attribute.db_set', old="attr.converters[0].dbval2val(new_dbval, obj)", new="attr.converters[0].dbval2val(new_dbval)", expect='C28-OWNERARG'),
     dict(id='C28-b1', file='pony/orm/core.py', fn='Entity._attr_changed_', old="        bit = obj._bits_[attr]", new="        bit = obj._bits_except_volatile_[attr]", expect='C28-BITS'),
     dict(id='C28-m1', file='pony/orm/ormtypes.py', old='    popitem = tracked_method(dict.popitem)\n', new='', expect='TrackedDict.popitem'),
